@@ -425,7 +425,8 @@ Qed.
 
 Lemma good_create : forall s n r, wf s -> good s (fst (op_create fx c clock s n r)).
 Proof.
-  intros s n r W. unfold op_create. destruct (gen_next clock s) as [g s1] eqn:G.
+  intros s n r W. unfold op_create. destruct (cf_create_gen_in_tx fx && bad_create_name n); [apply good_refl; assumption|].
+  destruct (gen_next clock s) as [g s1] eqn:G.
   assert (G1 : good s s1) by (eapply good_gen_next; eassumption).
   destruct g as [v|]; [|assumption].
   repeat match goal with |- good _ (fst (if ?b then _ else _)) => destruct b; cbn [fst]; [assumption|] end.
